@@ -27,10 +27,14 @@ import extract  # noqa: E402
 
 REPO = os.environ.get("VERIF_REPO", "/repo")
 SCRATCH_ROOT = os.environ.get("VERIF_SCRATCH", "/var/tmp/vrp-verif")
-MEM_CAP_GB = int(os.environ.get("VERIF_MEM_GB", "9"))      # address-space cap per verifier process (a harness may raise it: "mem_gb")
-JOBS = int(os.environ.get("VERIF_JOBS", "6"))            # verifier processes running at the same time, across all units of a check
+MEM_CAP_GB = int(os.environ.get("VERIF_MEM_GB", "10"))     # resident-memory cap per verifier process group (a harness may raise it: "mem_gb")
+JOBS = int(os.environ.get("VERIF_JOBS", "5"))            # verifier processes running at the same time, across all units of a check
 _slots = threading.BoundedSemaphore(JOBS)
-KANI_FLAGS = ["-Z", "function-contracts", "-Z", "stubbing", "-Z", "concrete-playback", "--concrete-playback=print"]
+PLAYBACK_MEM_GB = int(os.environ.get("VERIF_PLAYBACK_MEM_GB", "24"))
+KANI_FLAGS = ["-Z", "function-contracts", "-Z", "stubbing"]
+# concrete playback switches CBMC's formula slicing off: the same harness needs 30x the memory (U06a: 1.2 GB / 53 s without,
+# > 40 GB with). It is therefore requested only in a SECOND run, after a first run has completed with a failed check.
+PLAYBACK_FLAGS = ["-Z", "concrete-playback", "--concrete-playback=print"]
 
 _print_lock = threading.Lock()
 
@@ -71,34 +75,61 @@ def load_known():
 
 # ------------------------------------------------------------------ subprocess helper
 
-def _limits_for(gb):
-    def f():
-        os.setsid()
-        cap = gb * (1 << 30)
-        resource.setrlimit(resource.RLIMIT_AS, (cap, cap))
-    return f
+def _group_rss_gb(pgid):
+    """resident memory of every process in process group pgid (GB)"""
+    total = 0
+    for d in os.listdir("/proc"):
+        if not d.isdigit():
+            continue
+        try:
+            st = open(f"/proc/{d}/stat").read()
+            rest = st[st.rindex(")") + 2:].split()
+            if int(rest[2]) != pgid:      # field 5 of stat = pgrp
+                continue
+            total += int(rest[21]) * 4096  # field 24 = rss pages
+        except Exception:
+            continue
+    return total / (1 << 30)
 
 
 def run_cmd(cmd, cwd, timeout, env=None, mem_cap=True, mem_gb=None):
+    """run a command in its own process group under a wall-clock limit and a *resident-memory* cap
+    (RLIMIT_AS is useless here: CBMC reserves far more address space than it touches)"""
     e = dict(os.environ)
     e["CARGO_NET_OFFLINE"] = "true"
     e.pop("RUSTFLAGS", None)
     if env:
         e.update(env)
+    cap = mem_gb or MEM_CAP_GB
     t0 = time.time()
     p = subprocess.Popen(cmd, cwd=cwd, stdout=subprocess.PIPE, stderr=subprocess.STDOUT, env=e,
-                         preexec_fn=_limits_for(mem_gb or MEM_CAP_GB) if mem_cap else os.setsid, text=True, errors="replace")
-    try:
-        out, _ = p.communicate(timeout=timeout)
-        timed_out = False
-    except subprocess.TimeoutExpired:
-        try:
-            os.killpg(p.pid, signal.SIGKILL)
-        except ProcessLookupError:
-            pass
-        out, _ = p.communicate()
-        timed_out = True
-    return p.returncode, out, time.time() - t0, timed_out
+                         preexec_fn=os.setsid, text=True, errors="replace")
+    state = {"killed": None, "peak": 0.0}
+
+    def watch():
+        while p.poll() is None:
+            if time.time() - t0 > timeout:
+                state["killed"] = "timeout"
+            elif mem_cap:
+                rss = _group_rss_gb(p.pid)
+                state["peak"] = max(state["peak"], rss)
+                if rss > cap:
+                    state["killed"] = "memory"
+            if state["killed"]:
+                try:
+                    os.killpg(p.pid, signal.SIGKILL)
+                except ProcessLookupError:
+                    pass
+                return
+            time.sleep(1.5)
+
+    th = threading.Thread(target=watch, daemon=True)
+    th.start()
+    out, _ = p.communicate()
+    th.join(timeout=5)
+    if state["killed"] == "memory":
+        out += f"\n[vf] killed: resident memory above the cap of {cap} GB (CBMC appears to have run out of memory)\n"
+    return p.returncode, out, time.time() - t0, state["killed"] == "timeout"
 
 
 # ------------------------------------------------------------------ assumption scan
@@ -352,10 +383,10 @@ def prepare_kani_unit(u, scratch):
     return gen_dir, ["-p", u["package"]], infos, ov["harness_path"], ov["scan_paths"]
 
 
-def run_kani_harness(u, h, workdir, cargo_args, timeout):
-    cmd = ["cargo", "kani"] + cargo_args + KANI_FLAGS + u.get("kani_flags", []) + h.get("kani_flags", []) + ["--harness", h["name"], "--exact"]
+def run_kani_harness(u, h, workdir, cargo_args, timeout, playback=False):
+    cmd = ["cargo", "kani"] + cargo_args + KANI_FLAGS + (PLAYBACK_FLAGS if playback else []) + u.get("kani_flags", []) + h.get("kani_flags", []) + ["--harness", h["name"], "--exact"]
     with _slots:
-        rc, out, wall, to = run_cmd(cmd, workdir, timeout, mem_gb=h.get("mem_gb"))
+        rc, out, wall, to = run_cmd(cmd, workdir, timeout, mem_gb=(PLAYBACK_MEM_GB if playback else h.get("mem_gb")))
     return cmd, rc, out, wall, to
 
 
@@ -468,7 +499,14 @@ def run_kani_unit(u, tier, scratch, pid, known):
                     any_undecided = any_undecided or f"negative guard {h['name']} did not fail: harness domain is vacuous"
             elif real:
                 ob["status"] = "failed"
-                play = k["playback"]
+                # second run, only now, to obtain a concrete counterexample (see PLAYBACK_FLAGS)
+                if is_known:
+                    play = []      # a recorded finding: no need to search for its input again
+                else:
+                    _, rc2, out2, wall2, to2 = run_kani_harness(u, h, workdir, cargo_args, min(1800, 3 * h.get("timeout_s", u.get("timeout_s", 600))), playback=True)
+                    k2 = parse_kani(out2)
+                    ob["playback_run_s"] = round(wall2, 1)
+                    play = k2["playback"] if (not to2 and k2["verdict"] is not None and "CBMC failed" not in out2 and "run out of memory" not in out2) else []
                 # choose the playback test that belongs to an assertion (not a cover)
                 pb = None
                 for t in play:
@@ -610,13 +648,14 @@ def report(pid, tier, results, known, prop, wall):
     real_viol = []
     for path, has_input, r, f in viol:
         nr = f.get("native_replay") or {}
-        if r["mode"] != "V" and not (f.get("counterexample") and nr.get("ran") and nr.get("reproduced")):
-            # Kani always has a trace for a genuine failure; one that cannot be turned into a concrete input, or whose
-            # input does not make the same harness fail natively, is a tool artefact (solver imprecision, back-end
-            # trouble, environment too weak): undecided, never an alarm
-            why = "does not reproduce natively" if nr.get("ran") else "no concrete counterexample could be replayed"
-            undec.append({"unit": r["unit"], "diagnostic": f"unconfirmed counterexample for {f['obligation']}: {why}; see {path}"})
+        if r["mode"] != "V" and f.get("counterexample") and nr.get("ran") and not nr.get("reproduced"):
+            # the first (sliced) run completed with a failed check and the second run produced a concrete input, but that
+            # input does not make the same harness fail natively: solver imprecision or an environment that is too weak.
+            # Undecided, never an alarm.
+            undec.append({"unit": r["unit"], "diagnostic": f"spurious counterexample for {f['obligation']}: does not reproduce natively; see {path}"})
             continue
+        # a Kani failure without a concrete input (the playback run exceeded its memory/time budget) is still reported:
+        # the first run completed normally (back-end failures are filtered out earlier) and named the failed check
         real_viol.append((path, has_input, r, f))
     write_evidence(pid, tier, seed, manifest_level, results, known_hits, real_viol, undec, wall)
     for r, f, kf in known_hits:
